@@ -9,6 +9,8 @@ from contracts import registry
 def main():
     quals = sys.argv[1:]
     prog = Program()
+    for _n, _p in registry.SIDE_MODULES.items():
+        prog.add_module(_n, _p)
     V = Verifier(prog, registry.SCHEMA, registry.CONTRACTS, registry.SPEC)
     for q in quals or sorted(registry.CONTRACTS):
         if registry.CONTRACTS[q].trusted:
